@@ -912,11 +912,11 @@ def mpci_gamma(z, prec, type=0):
         maxre = mpc_loggamma((a2,fzero), wp, round_ceiling)
         # stretches more into the lower half-plane
         if mpf_gt(mpf_neg(b1), b2):
-            minre = mpc_loggamma((a1,b1), wp, round_ceiling)
+            minre = mpc_loggamma((a1,b1), wp, round_floor)
         else:
-            minre = mpc_loggamma((a1,b2), wp, round_ceiling)
+            minre = mpc_loggamma((a1,b2), wp, round_floor)
         minim = mpc_loggamma((a2,b1), wp, round_floor)
-        maxim = mpc_loggamma((a2,b2), wp, round_floor)
+        maxim = mpc_loggamma((a2,b2), wp, round_ceiling)
 
     w = (minre[0], maxre[0]), (minim[1], maxim[1])
     if type == 3:
